@@ -155,7 +155,7 @@ def regenerate_gen(pid):
 
 def make_target(target, jobs=16, timeout=3000):
     os.makedirs(BUILD, exist_ok=True)
-    lock = os.path.join(BUILD, '.make.lock')
+    lock = os.path.join(BUILD, '.make.%s.lock' % re.sub(r'\W', '_', target or 'all'))
     cmd = 'flock %s timeout %d make -j%d %s 2>&1' % (lock, timeout, jobs, target)
     return sh(cmd, cwd=COQ, timeout=timeout + 600)
 
